@@ -27,7 +27,7 @@ func init() {
 	props["C11"] = &propDef{
 		header:    "From BE Require Import Corr.CheckC11.",
 		headers:   map[string]string{"E": "From BE Require Import Corr.CheckE2E.", "R": "From BE Require Import Corr.CheckRr."},
-		rule:      "exhaustive boundary grid (doc in 24 boundary values x idx,size in 11 boundary values) plus seeded random triples, entry pairs, roaring pairs and casts; through build and retrieval: every boundary id alone and together with the other in-range boundary ids as documents of 1..4 conjunctions (include-only, exclude-only, mixed) on the k-groups and compact indexes (Retrieve and the recording collector) and on the roaring index (Retrieve, RetrieveDocs, GetRawResult, WithHint with the extreme ids), ids just outside the range offered to AddDocument; documents of 255, 256, 257 and 300 conjunctions (positions at and beyond the last encodable one); conjunctions of 127..255 include fields sharing posting lists with small ones; a third of the non-batch roaring cases and a dedicated case with ids 2^53+1 .. 2^55-1 add every document decoded from its own JSON encoding (the id a plain JSON number); a case is non-trivial when the ids involved are accepted and non-zero (conj/rr), when both conjunction ids are < 2^60 (entry), always for casts, when some retrieval returns a non-empty proper subset (through retrieval); distinct = distinct input",
+		rule:      "exhaustive boundary grid (doc in 24 boundary values x idx,size in 11 boundary values) plus seeded random triples, entry pairs, roaring pairs and casts; through build and retrieval: every boundary id alone and together with the other in-range boundary ids as documents of 1..4 conjunctions (include-only, exclude-only, mixed) on the k-groups and compact indexes (under the error, skip and panic policies in turn; Retrieve and the recording collector) and on the roaring index (Retrieve, RetrieveDocs, GetRawResult, WithHint with the extreme ids), ids just outside the range offered to AddDocument; documents of 255, 256, 257 and 300 conjunctions (positions at and beyond the last encodable one); conjunctions of 127..255 include fields sharing posting lists with small ones; a third of the non-batch roaring cases and a dedicated case with ids 2^53+1 .. 2^55-1 add every document decoded from its own JSON encoding (the id a plain JSON number); a case is non-trivial when the ids involved are accepted and non-zero (conj/rr), when both conjunction ids are < 2^60 (entry), always for casts, when some retrieval returns a non-empty proper subset (through retrieval); distinct = distinct input",
 		shardSize: 1500,
 		gen: func(tier string, r *Rand, add func(in interface{})) {
 			for _, d := range docs {
@@ -196,8 +196,9 @@ func c11Retrieval(tier string, r *Rand, ids []int64, add func(in interface{})) {
 		}
 		emitted := 0
 		emit := func(docs []eDoc) {
-			if kind != "rr" {
-				add(eCase{Kind: kind, Policy: "error", Docs: docs, Queries: queries()})
+			if kind != "rr" { // whatever the policy for unparseable conjunctions: an id or size outside the range is refused
+				emitted++
+				add(eCase{Kind: kind, Policy: []string{"error", "skip", "panic"}[emitted%3], Docs: docs, Queries: queries()})
 				return
 			}
 			c := rCase{Fields: []rField{{F: 0, Cont: "default"}, {F: 1, Cont: "default"}}, Docs: docs}
@@ -306,7 +307,7 @@ func c11Retrieval(tier string, r *Rand, ids []int64, add func(in interface{})) {
 				docs := []eDoc{{ID: 9, Cons: []eConj{big}}, {ID: -7, Cons: []eConj{{{F: 0, Inc: true, V: ivs(1)}}}},
 					{ID: 8, Cons: []eConj{{{F: 0, Inc: true, V: ivs(1)}, {F: 1, Inc: true, V: ivs(1)}}, {{F: 3, Inc: false, V: ivs(1)}}}}}
 				qs := []eQuery{{A: []eAssign{{F: 0, V: iv(1)}}}, {A: all}, {A: all[:2]}, {A: all[:nf-1]}, {A: []eAssign{{F: 5, V: iv(2)}}}}
-				add(eCase{Kind: kind, Policy: "error", Docs: docs, Queries: qs})
+				add(eCase{Kind: kind, Policy: []string{"error", "skip", "panic"}[nf%3], Docs: docs, Queries: qs})
 			}
 		}
 		n := 20
